@@ -205,6 +205,11 @@ def special_cases(ctx):
         ("argument of exactly 131072 bytes, -n1 after a failing one", ["-n1"], None, b"a\n" + b"B" * 131072 + b"\nz\n", 1, 1),
         ("argument of exactly 131072 bytes, -0", ["-0"], None, b"B" * 131072 + b"\0", 1, 0),
         ("argument too long for -s", ["-s", str(len(common.REC) + 1 + 6)], None, b"abcdefghijklmnop\n", 1, 0),
+        # -x: a group (-L lines / -n arguments) that does not fit the size limit is an error, not a reason to split it
+        ("-x -L 1: a later argument of the line does not fit -s", ["-x", "-L", "1", "-s", str(len(common.REC) + 1 + 6)], None, b"a\nab cd efg\nz\n", 1, 1),
+        ("-x -L 2: the second line does not fit -s", ["-x", "-L", "2", "-s", str(len(common.REC) + 1 + 6)], None, b"ab\ncd efg\nz\n", 1, 0),
+        ("-x --max-lines=1: a later argument does not fit -s", ["-x", "--max-lines=1", "-s", str(len(common.REC) + 1 + 6)], None, b"ab cd efg\n", 1, 0),
+        ("-x -n 3: the third argument does not fit -s", ["-x", "-n", "3", "-s", str(len(common.REC) + 1 + 6)], None, b"ab cd efg zz\n", 1, 0),
         ("argument too long for -s after ok ones", ["-s", str(len(common.REC) + 1 + 6)], None, b"ab\ncd\nabcdefghijklmnop\nzz\n", 1, None),
     ]
     for name, opts, cmd, data, want, want_n in cases:
